@@ -728,6 +728,59 @@ Proof.
 Qed.
 
 (* ---------------- examples ---------------- *)
+(* ---------------- FindEnt / find_definition_of ---------------- *)
+Section FindEnt.
+  Variable cond : ent -> bool.
+  Let sr := find_ent_searcher cond.
+  Let Q (s : option ent) : Prop := match s with Some x => cond x = true | None => True end.
+  Let PQ (x : ev) := forall s, Q s -> Q (fst (search_ev sr x s)).
+
+  Lemma find_ent_list_of : forall l, Forall PQ l -> forall s, Q s -> Q (fst (search_list sr l s)).
+  Proof.
+    intros l HF. induction HF as [|x r Hx Hr IH]; intros s Hs.
+    - exact Hs.
+    - rewrite search_list_cons. specialize (Hx s Hs).
+      destruct (search_ev sr x s) as [s1 fnd]. cbn [fst] in Hx.
+      destruct fnd; [exact Hx|]. apply IH. exact Hx.
+  Qed.
+
+  Lemma find_ent_ev : forall x, PQ x.
+  Proof.
+    induction x as [p t g IH|d dp ep k|sp g IH|l IH] using ev_ind'; intros s Hs.
+    - rewrite search_ev_ref. unfold sr at 1. cbn [on_ref find_ent_searcher].
+      apply (find_ent_list_of g IH). exact Hs.
+    - rewrite search_ev_decl. unfold sr. cbn [on_decl find_ent_searcher].
+      destruct d as [x|]; [|exact Hs].
+      destruct (cond x) eqn:C; cbn [fst]; [exact C|exact Hs].
+    - rewrite search_ev_with. unfold sr at 1. cbn [on_with find_ent_searcher].
+      apply (find_ent_list_of g IH). exact Hs.
+    - rewrite search_ev_group. apply (find_ent_list_of l IH). exact Hs.
+  Qed.
+
+  Lemma find_ent_root : forall f s, Q s -> Q (fst (search_root sr f s)).
+  Proof.
+    induction f as [|u r IH]; intros s Hs.
+    - exact Hs.
+    - cbn [search_root].
+      assert (H1 : Q (fst (search_list sr (snd u) s))).
+      { apply find_ent_list_of; [|exact Hs]. apply Forall_forall. intros x _. apply find_ent_ev. }
+      destruct (search_list sr (snd u) s) as [s1 fnd]. cbn [fst] in H1.
+      destruct fnd; [exact H1|]. apply IH. exact H1.
+  Qed.
+End FindEnt.
+
+(* the definition found for a declaration is the declaration itself or an entity DeclaredBy it *)
+Lemma find_definition_counterpart : forall f d, is_reference d (find_definition_of f d) = true.
+Proof.
+  intros f d. unfold find_definition_of.
+  pose proof (find_ent_root (fun x => is_declared_by x d) f None I) as H.
+  destruct (fst (search_root (find_ent_searcher (fun x => is_declared_by x d)) f None)) as [x|].
+  - cbn in H. unfold is_reference. rewrite H. rewrite orb_true_r.
+    destruct (ent_id d =? ent_id x); [reflexivity|].
+    destruct (is_instance_of d x || is_instance_of x d); reflexivity.
+  - unfold is_reference. rewrite N.eqb_refl. reflexivity.
+Qed.
+
 Lemma pruning_needs_wf :
   wf_forest ex_narrow = false
   /\ In ex_p1 (find_all_references ex_narrow ex_e1)
